@@ -16,7 +16,7 @@ fn space_for(tier: Tier) -> (Space, usize) {
     match tier {
         Tier::Quick => {
             s.ast("K0", 5, 128).ast("Q", 3, 128).ast("CL", 4, 128).ast("AN", 3, 128);
-            s.ast_range("LP", 1, 3, 64, 5);
+            s.ast_range("LP", 1, 3, 64, 5).ast_range("LPI", 1, 3, 64, 5);
             s.ast_range("ALT", 1, 4, 64, 4);
             // back-references: membership decided by exhaustive path exploration
             s.ast_range("G", 1, 6, 256, 3).ast_range("BR", 1, 3, 64, 3);
@@ -33,7 +33,7 @@ fn space_for(tier: Tier) -> (Space, usize) {
             s.ast_range("K0", 6, 6, 256, 103);
             // deeper / longer layers, restricted likewise and to quantifier depth 1
             s.ast_range("K0", 7, 7, 1024, 202).ast_range("Q", 5, 5, 256, 204).ast_range("CL", 5, 5, 128, 203).ast_range("AN", 6, 6, 128, 204);
-            s.ast_range("LP", 1, 4, 64, 6);
+            s.ast_range("LP", 1, 4, 64, 6).ast_range("LPI", 1, 3, 64, 5).ast_range("LPI", 4, 4, 64, 4);
             s.ast_range("ALT", 1, 4, 64, 4);
             s.ast_range("G", 1, 6, 256, 4).ast_range("BR", 1, 4, 64, 4);
             s.ast_range("FX", 1, 4, 64, 6).ast_range("FXA", 1, 4, 64, 6);
